@@ -245,6 +245,17 @@ def step (st : St) (line : String) : St × String :=
       | some sigs => ({ st with coll := .sbt (sbtSaveFS sigs) }, "ok refused=")
       | none => bad
     | none => bad
+  | ["sbtresave", _src, dst, l, x] =>
+    -- an SBT saved, loaded back, optionally extended, and saved again somewhere else (other directory and/or
+    -- other name and/or the other container kind); the source is then deleted: the copy must stand alone
+    match idxList? l, idxList? x with
+    | some l, some x =>
+      match getSigs st (l ++ x) with
+      | some sigs =>
+        if dst = "zip" then ({ st with coll := .sbt (sbtSave sigs) }, "ok refused=")
+        else ({ st with coll := .sbt (sbtSaveFS sigs) }, "ok refused=")
+      | none => bad
+    | _, _ => bad
   | ["lcasql", ksize, mol, scaled, maxHash, l] =>
     match nats? [ksize, mol, scaled, maxHash], idxList? l with
     | some [ksize, mol, scaled, maxHash], some l =>
